@@ -309,7 +309,9 @@ pub fn run(c: &Value) -> Value {
             for _ in 0..reps {
                 // fresh instances every repetition: every HashSet gets a fresh RandomState
                 let a = match guarded(|| term_of(&c["a"])) { Ok(Ok(t)) => t, e => return json!({"build":"fail","msg":format!("{e:?}")}) };
-                let b = match guarded(|| term_of(&c["b"])) { Ok(Ok(t)) => t, e => return json!({"build":"fail","msg":format!("{e:?}")}) };
+                // b is built (and hashed once) on ANOTHER thread: values built anywhere in the process must agree
+                let built_b = std::thread::scope(|sc| sc.spawn(|| guarded(|| term_of(&c["b"]).map(|t| { let h = hash_default(&t); (t, h) }))).join());
+                let (b, hb_other_thread) = match built_b { Ok(Ok(Ok(x))) => x, e => return json!({"build":"fail","msg":format!("{:?}", e.is_ok())}) };
                 let a2 = a.clone();
                 let rs = RandomState::new();
                 let mut ra = Recorder::default();
@@ -322,7 +324,7 @@ pub fn run(c: &Value) -> Value {
                 map.insert(a.clone(), 1u8);
                 out.push(json!({
                     "ab": a == b, "ba": b == a, "aa": a == a2, "bb": b == b.clone(),
-                    "ha": hash_default(&a).to_string(), "hb": hash_default(&b).to_string(),
+                    "ha": hash_default(&a).to_string(), "hb": hash_default(&b).to_string(), "hb_other_thread": hb_other_thread.to_string(),
                     "hr_eq": rs.hash_one(&a) == rs.hash_one(&b),
                     "stream_eq": ra.0 == rb.0,
                     "contains": set.contains(&b), "map_get": map.get(&b).is_some(),
@@ -414,7 +416,7 @@ pub fn run(c: &Value) -> Value {
                 o["en_try"] = match guarded(|| x.try_validate().map(|v| *v).map_err(|e| e.to_string())) {
                     Ok(Ok(v)) => json!({"r":"ok","bits":bits(v)}), Ok(Err(e)) => json!({"r":"err","msg":e}), Err(p) => json!({"r":"panic","msg":p}) };
                 o["en_validate"] = match guarded(|| *x.validate()) { Ok(v) => json!({"r":"ok","bits":bits(v)}), Err(p) => json!({"r":"panic","msg":p}) };
-                let roots: Vec<Value> = [1usize, 2, 3, 7, 64, 1000].iter().map(|n| {
+                let roots: Vec<Value> = [1usize, 2, 3, 7, 64, 1000, 1 << 31, (1 << 31) + 1, usize::MAX / 2 + 1, usize::MAX].iter().map(|n| {
                     match guarded(|| x.root(*n)) { Ok(r) => json!({"n":n,"bits":bits(r),"valid":r.is_valid()}), Err(p) => json!({"n":n,"panic":p}) }
                 }).collect();
                 o["en_roots"] = Value::Array(roots);
